@@ -2120,8 +2120,11 @@ static int64_t eval2(Node *node, char ***label) {
 
   switch (node->kind) {
   case ND_ADD: {
+    // Either operand may carry an address (`1 + (long)&x`), but only
+    // one of them: the right operand gets the slot for the symbol only
+    // if the left operand has left it empty.
     int64_t lhs = eval2(node->lhs, label);
-    int64_t rhs = eval(node->rhs);
+    int64_t rhs = eval2(node->rhs, label && !*label ? label : NULL);
     return wrap_to_type(node->ty, lhs + rhs);
   }
   case ND_SUB: {
